@@ -301,13 +301,86 @@ func c19Collide(target, tld string) string {
 	}
 }
 
+// ---- Round 6: names whose OWN chain has two hashes with the same 2-byte
+// prefix (one name in 65536 shares the prefix with its parent).
+
+// c19Coll is a queried name whose enumerated names A (earlier in the chain)
+// and B (later: a parent of A) have hashes with equal 2-byte prefixes.
+type c19Coll struct {
+	Host, A, B string
+}
+
+// c19CollSpecs: the name made from pattern with the number n shares its prefix
+// with target, a parent of it.  The numbers were found by c19FindColl from 0
+// and are verified when the world is built; the thorough tier searches fresh
+// ones from a seed-dependent start as well.
+var c19CollSpecs = []struct {
+	pattern, target string
+	n               int
+}{
+	{"h%d.example.org", "example.org", 86390},         // chain of 2: name / parent
+	{"h%d.sub.example.org", "sub.example.org", 53931}, // chain of 3: name / parent
+	{"h%d.sub.example.org", "example.org", 34316},     // chain of 3: name / grandparent
+	{"h%d.a.b.example.org", "a.b.example.org", 92184}, // chain of 4: name / parent
+	{"h%d.a.b.example.org", "b.example.org", 86531},   // chain of 4: name / grandparent
+	{"h%d.a.b.example.org", "example.org", 9988},      // chain of 4: name / last name
+	{"h%d.github.io", "github.io", 74882},             // private suffix, itself enumerated
+	{"h%d.github.io", "io", 39068},                    // ... and its parent io
+	{"h%d.lan", "lan", 133398},                        // default rule
+	{"h%d.evil.co.uk", "evil.co.uk", 39470},           // two-label ICANN suffix
+	{"h%d.blogspot.com", "blogspot.com", 90066},       // private suffix under an ICANN one
+}
+
+// c19FindColl hashes the names made from pattern with start, start+1, .. until
+// one shares its 2-byte prefix with target (about 65536 hashes).
+func c19FindColl(pattern, target string, start int) (name string) {
+	want := sha256.Sum256([]byte(target))
+	for i := start; ; i++ {
+		n := fmt.Sprintf(pattern, i)
+		h := sha256.Sum256([]byte(n))
+		if h[0] == want[0] && h[1] == want[1] {
+			return n
+		}
+	}
+}
+
+// c19PrefixPairs lists the pairs i < j of names whose hashes share the prefix.
+func c19PrefixPairs(names []string) (pairs [][2]int) {
+	for i := range names {
+		for j := i + 1; j < len(names); j++ {
+			a, b := c19Sum(names[i]), c19Sum(names[j])
+			if a[0] == b[0] && a[1] == b[1] {
+				pairs = append(pairs, [2]int{i, j})
+			}
+		}
+	}
+	return pairs
+}
+
+func c19UniqSorted(ss []string) (res []string) {
+	res = append(res, ss...)
+	sort.Strings(res)
+	n := 0
+	for i, s := range res {
+		if i == 0 || s != res[n-1] {
+			res[n] = s
+			n++
+		}
+	}
+	return res[:n]
+}
+
 type c19World struct {
 	labels   []string
 	suffixes []string
 	collide  map[string]string // name -> another name with the same prefix
+	// colls: names with a prefix collision inside their own chain; the first
+	// len(c19CollSpecs) are the constant ones, in the order of the specs.
+	colls  []c19Coll
+	collOf map[string]c19Coll // by Host
 }
 
-func c19NewWorld() *c19World {
+func c19NewWorld(t *testing.T, seed uint64, thorough bool) *c19World {
 	w := &c19World{
 		labels: []string{"www", "mail", "evil", "shop", "good", "xn--g", "x", "y", "k9", "pvt"},
 		suffixes: []string{
@@ -320,13 +393,47 @@ func c19NewWorld() *c19World {
 		},
 		collide: map[string]string{},
 	}
-	for _, n := range []string{"evil.com", "good.org", "shop.co.uk", "evil.github.io", "mail.lan"} {
+	for _, n := range []string{"evil.com", "good.org", "shop.co.uk", "evil.github.io", "mail.lan", "example.org"} {
 		w.collide[n] = c19Collide(n, "org")
+	}
+	w.collOf = map[string]c19Coll{}
+	add := func(name, target string) {
+		a, b := c19Sum(name), c19Sum(target)
+		if a[0] != b[0] || a[1] != b[1] || !strings.HasSuffix(name, "."+target) {
+			t.Fatalf("C19 harness: %q and %q were expected to have hashes with the same 2-byte prefix", name, target)
+		}
+		for _, c := range []c19Coll{{Host: name, A: name, B: target}, {Host: "www." + name, A: name, B: target}} {
+			w.colls = append(w.colls, c)
+			w.collOf[c.Host] = c
+		}
+	}
+	for _, sp := range c19CollSpecs {
+		add(fmt.Sprintf(sp.pattern, sp.n), sp.target)
+	}
+	if thorough {
+		// Fresh ones for this seed.
+		start := int(seed%1000)*1000000 + 200000
+		for _, sp := range c19CollSpecs {
+			add(c19FindColl(sp.pattern, sp.target, start), sp.target)
+		}
 	}
 	return w
 }
 
 func (w *c19World) host(r *vfRand) string {
+	if r.Chance(1, 8) {
+		// A name with a prefix collision inside its own chain, the later one of
+		// the pair on its own, or a child of the name.
+		c := vfPick(r, w.colls)
+		switch r.Intn(6) {
+		case 0:
+			return c.B
+		case 1:
+			return vfPick(r, w.labels) + "." + c.Host
+		default:
+			return c.Host
+		}
+	}
 	if r.Chance(1, 10) {
 		// A name with a prefix twin.
 		keys := make([]string, 0, len(w.collide))
@@ -498,6 +605,21 @@ func (w *c19World) history(r *vfRand, nOps int) (h c19Hist) {
 			}
 			h.DB = append(h.DB, txt(t))
 			splicedHosts = append(splicedHosts, host)
+		}
+		if c, ok := w.collOf[host]; ok {
+			// The pair of the chain that shares a prefix: mostly the LATER name
+			// (a parent) is listed, sometimes the earlier one, both, or neither.
+			switch r.Intn(8) {
+			case 0, 1, 2, 3:
+				h.DB = append(h.DB, txt(hex.EncodeToString(c19Sum(c.B))))
+			case 4:
+				h.DB = append(h.DB, txt(hex.EncodeToString(c19Sum(c.A))))
+			case 5:
+				h.DB = append(h.DB, txt(hex.EncodeToString(c19Sum(c.A))), txt(hex.EncodeToString(c19Sum(c.B))))
+			}
+			if r.Chance(1, 2) {
+				hosts = append(hosts, c.B)
+			}
 		}
 		subs := c19Subnames(host)
 		names = append(names, subs...)
@@ -964,6 +1086,36 @@ func c19Run(out *vfOut, h c19Hist, forced []string) {
 				fail("C19/panic", fmt.Sprintf("Check(%q) panicked: %v", st.Host, pan))
 				classes["panic"] = true
 			}
+			// Round 6: two enumerated names of this host share the prefix.
+			collPairs := c19PrefixPairs(enum)
+			if len(collPairs) > 0 {
+				classes["collision-in-chain"] = true
+				classes[fmt.Sprintf("collision-chain-of-%d", len(enum))] = true
+				nontrivial = true
+				for _, pr := range collPairs {
+					if pr[1] == pr[0]+1 {
+						classes["collision-adjacent-names"] = true
+					} else {
+						classes["collision-non-adjacent-names"] = true
+					}
+					// the LATER name of the pair is what the service lists, the
+					// earlier one is not listed
+					if dbValid[string(c19Sum(enum[pr[1]]))] && !dbValid[string(c19Sum(enum[pr[0]]))] && err == nil && pan == nil {
+						switch {
+						case asked && !st.Fail && !live(enum[pr[1]]):
+							classes["collision-later-name-listed-fresh"] = true
+						case !asked:
+							classes["collision-later-name-listed-cached"] = true
+						}
+					}
+					if dbValid[string(c19Sum(enum[pr[0]]))] && dbValid[string(c19Sum(enum[pr[1]]))] && err == nil && asked && !st.Fail {
+						classes["collision-both-names-listed"] = true
+					}
+				}
+				if h.CacheSize != 0 {
+					classes["collision-small-cache"] = true
+				}
+			}
 			// Monitor: privacy of the outgoing question.
 			if asked {
 				body := strings.TrimSuffix(lastQ, h.Suffix)
@@ -981,12 +1133,16 @@ func c19Run(out *vfOut, h c19Hist, forced []string) {
 						}
 					}
 					// Monitor: exactly the prefixes of the enumerated names without a
-					// valid entry are sent, one label per such name.
-					g, e := append([]string(nil), got...), append([]string(nil), expectAsk...)
-					sort.Strings(g)
-					sort.Strings(e)
+					// valid entry are sent.  (As a SET: when two such names share a
+					// prefix the code repeats the label, which the property does not
+					// ask for; the model states the repetition and the evaluator
+					// compares the question byte by byte.)
+					g, e := c19UniqSorted(got), c19UniqSorted(expectAsk)
 					if strings.Join(g, ".") != strings.Join(e, ".") {
 						fail("C19/question-prefix-set", fmt.Sprintf("Check(%q) asked %q; the enumerated names without a valid cache entry have the prefixes %v", st.Host, lastQ, expectAsk))
+					}
+					if len(got) > len(g) {
+						classes["collision-question-repeats-prefix"] = true
 					}
 				}
 				if strings.ContainsAny(st.Host, "ghijklmnopqrstuvwxyzGHIJKLMNOPQRSTUVWXYZ") && strings.Contains(body, st.Host) {
@@ -1101,6 +1257,56 @@ func c19Run(out *vfOut, h c19Hist, forced []string) {
 				for _, k := range ev.evicted {
 					if k == ev.key {
 						classes["lru-set-evicts-own-key"] = true
+					}
+				}
+			}
+			// Monitor (round 6): an entry written by this check and still in the
+			// cache holds every full hash of the answer that has its prefix, and
+			// nothing else; however many of the requested hashes share the prefix.
+			if asked && !st.Fail && err == nil && pan == nil {
+				servedBy := map[string]map[string]bool{}
+				for _, sv := range served {
+					if c19TxtKind(sv) == "" {
+						b, _ := hex.DecodeString(sv)
+						if servedBy[string(b[:2])] == nil {
+							servedBy[string(b[:2])] = map[string]bool{}
+						}
+						servedBy[string(b[:2])][string(b)] = true
+					}
+				}
+				written := map[string]bool{}
+				for _, ev := range wc.events {
+					if ev.stored {
+						written[ev.key] = true
+					}
+				}
+				elemsAfter, _, _ := c19Peek(wc.inner)
+				for _, e := range elemsAfter {
+					if !written[e.key] {
+						continue
+					}
+					have := map[string]bool{}
+					for _, x := range toCacheItem(e.val).hashes {
+						have[string(x[:])] = true
+					}
+					wantH := servedBy[e.key]
+					okE := len(have) == len(wantH)
+					for x := range wantH {
+						okE = okE && have[x]
+					}
+					if !okE {
+						fail("C19/cache-entry-not-the-answer", fmt.Sprintf("Check(%q) (asked %q) stored under the prefix %x an entry with %d hashes; the answer had %d full hashes with that prefix", st.Host, lastQ, e.key, len(have), len(wantH)))
+					}
+					if len(collPairs) > 0 {
+						nChain := 0
+						for _, ch := range chain {
+							if have[ch] {
+								nChain++
+							}
+						}
+						if nChain >= 2 {
+							classes["collision-entry-holds-two-chain-hashes"] = true
+						}
 					}
 				}
 			}
@@ -1315,7 +1521,7 @@ func c19Run(out *vfOut, h c19Hist, forced []string) {
 func TestVerifC19(t *testing.T) {
 	out := vfOpen(t, "C19")
 	defer out.Close()
-	w := c19NewWorld()
+	w := c19NewWorld(t, out.Seed, out.Thorough())
 
 	hx := func(n string) string { return hex.EncodeToString(c19Sum(n)) }
 	sum := func(n string) (h [32]byte) { copy(h[:], c19Sum(n)); return h }
@@ -1525,6 +1731,64 @@ func TestVerifC19(t *testing.T) {
 			}
 		}
 		prelude = append(prelude, hst)
+	}
+
+	// ---- Round 6: prefix collisions inside one name's chain.  For every
+	// constant pair (A earlier in the chain, B a parent of A, equal prefixes):
+	for i, c := range w.colls {
+		if i >= 2*len(c19CollSpecs) {
+			break // the fresh ones of the thorough tier go through the generator
+		}
+		foreign := sha256.Sum256([]byte("foreign/" + c.B))
+		copy(foreign[:2], c19Sum(c.B)[:2])
+		fx := hex.EncodeToString(foreign[:])
+		if c.Host != c.A {
+			// a child of the colliding name: parent and grandparent (or further
+			// up) share the prefix, the name itself has its own
+			prelude = append(prelude,
+				c19Hist{Suffix: sb, DB: c19Strs(hx(c.B)),
+					Steps: []c19Step{chk(c.Host), chk(c.Host), chk(c.A), chk(c.B), adv(3700), chk(c.A), chk(c.Host)}},
+				c19Hist{Suffix: pc, DB: c19Strs(hx(c.A)),
+					Steps: []c19Step{chk(c.Host), chk(c.B), chk(c.Host), evict(c.B), chk(c.B), chk(c.Host)}})
+			continue
+		}
+		prelude = append(prelude,
+			// the LATER name of the pair (the parent) is listed: blocked on the
+			// fresh lookup, from the cache, after expiry; the parent alone too
+			c19Hist{Suffix: sb, DB: c19Strs(hx(c.B)),
+				Steps: []c19Step{chk(c.Host), chk(c.Host), adv(3700), chk(c.Host), chk(c.B), chk(c.Host)}},
+			// the earlier name is listed: the shared entry holds its hash, the
+			// parent on its own is clean from that entry and on a fresh lookup
+			c19Hist{Suffix: pc, DB: c19Strs(hx(c.A)),
+				Steps: []c19Step{chk(c.Host), chk(c.Host), chk(c.B), evict(c.B), chk(c.B), chk(c.Host)}},
+			// both listed and a foreign hash under the same prefix: one entry
+			// with three hashes (106 bytes) in a cache of 130 / of 100 bytes
+			c19Hist{CacheSize: []uint{130, 100}[i/2%2], Suffix: sb, DB: c19Strs(fx, hx(c.A), hx(c.B)),
+				Steps: []c19Step{chk(c.Host), chk(c.Host), chk(c.B), chk(c.Host)}},
+			// nothing listed: ONE empty entry for the pair; the parent gets listed
+			// while it lives, is seen when it is gone, is delisted while the
+			// positive entry lives
+			c19Hist{Suffix: sb,
+				Steps: []c19Step{chk(c.Host), dbAdd(hx(c.B)), chk(c.Host), adv(3700), chk(c.Host), chk(c.Host),
+					dbDel(hx(c.B)), chk(c.Host), evict(c.B), chk(c.Host), chk(c.Host)}},
+			// only a foreign hash under the shared prefix: never blocked
+			c19Hist{Suffix: "x.", DB: c19Strs(fx),
+				Steps: []c19Step{chk(c.Host), chk(c.Host), chk(c.B), dbAdd(hx(c.B)), evict(c.B), chk(c.Host)}},
+			// a cache of one element: the parent's hash is stored (42 bytes) and
+			// pushed out by the other names of the chain, or kept
+			c19Hist{CacheSize: 45, Suffix: sb, DB: c19Strs(hx(c.B)),
+				Steps: []c19Step{chk(c.Host), chk(c.Host), chk(c.B), chk(c.Host)}},
+		)
+	}
+	// A third, different name with the same prefix as the colliding pair:
+	// asked before and after it.
+	{
+		c := w.colls[0]
+		tw := w.collide[c.B]
+		prelude = append(prelude,
+			c19Hist{Suffix: sb, DB: c19Strs(hx(c.B)), Steps: []c19Step{chk(tw), chk(c.Host), chk(tw), adv(3700), chk(c.Host), chk(tw)}},
+			c19Hist{Suffix: sb, DB: c19Strs(hx(tw)), Steps: []c19Step{chk(c.Host), chk(tw), chk(c.Host), chk(c.B)}},
+			c19Hist{Suffix: pc, DB: c19Strs(hx(tw), hx(c.B)), Steps: []c19Step{chk(tw), chk(c.B), evict(c.B), chk(c.Host), chk(tw)}})
 	}
 
 	for _, h := range prelude {
